@@ -151,9 +151,13 @@ def run_check(run, tier):
         ctx.oblige('C13/traces/event-filter.depends-only-on-thread-code-and-settings', z3.BoolVal(not state_syms), info={'kind': 'event-filter'})
         requested = z3.Or(z3.And(n_fc == 0, n_fsc == 0), user_fc(gid / (1 << 24)), user_fsc(gid / (1 << 16)), gid / (1 << 24) == 7,
                           z3.And(gid / (1 << 24) == 3, user_fc(z3.IntVal(4))))
+        # from the property: the kernel-trace class is read whatever the filters are - its records declare threads, name
+        # processes and announce strings for *other* threads too (a new thread is announced by its creator) - and the
+        # thread filter lets through nothing else of other threads
+        own_or_helper = z3.Or(z3.Not(tid_p), gtid == tid_v, gid / (1 << 24) == 7)
         ctx.oblige('C13/traces/event-filter.keeps-every-requested-and-helper-record',
-                   z3.Implies(z3.And(z3.Or(z3.Not(tid_p), gtid == tid_v), requested), ev_code), info={'kind': 'event-filter'})
-        ctx.oblige('C13/traces/event-filter.drops-other-threads', z3.Implies(ev_code, z3.Or(z3.Not(tid_p), gtid == tid_v)), info={'kind': 'event-filter'})
+                   z3.Implies(z3.And(own_or_helper, requested), ev_code), info={'kind': 'event-filter'})
+        ctx.oblige('C13/traces/event-filter.other-threads-contribute-kernel-trace-records-only', z3.Implies(ev_code, own_or_helper), info={'kind': 'event-filter'})
         tcls = ClassVal('AnyTrace', None, 'plain')
         trace = Obj(tcls, {'ktraces': PList([e0])})
         ev_keeps = True
